@@ -136,12 +136,41 @@ func c10exactFixed(x *big.Rat, pct, d int) string {
 // ---------------------------------------------------------------------------
 // building one fmt op
 
+// c10o: the Options a File was opened with, as far as format reads them
+type c10o struct {
+	culture                   int
+	short, longDate, longTime string
+}
+
+func (o *c10o) options() *xl.Options {
+	if o == nil {
+		return nil
+	}
+	return &xl.Options{CultureInfo: xl.CultureName(o.culture), ShortDatePattern: o.short, LongDatePattern: o.longDate, LongTimePattern: o.longTime}
+}
+
 type c10case struct {
 	cellNumeric, d1904 bool
 	value, code        string
+	o                  *c10o
+	// glue cases: the result comes from the public API instead of the hook
+	api    func() string
+	prefix string
+	suffix string
+	rep    string
+}
+
+func c10mk(cellNumeric, d1904 bool, value, code string, o *c10o) c10case {
+	return c10case{cellNumeric: cellNumeric, d1904: d1904, value: value, code: code, o: o}
 }
 
 func (c c10case) replay() string {
+	if c.rep != "" {
+		return c.rep
+	}
+	if c.o != nil {
+		return fmt.Sprintf("caseo %s %s %s %s %d %s %s %s", b01(c.cellNumeric), b01(c.d1904), hx(c.value), hx(c.code), c.o.culture, hx(c.o.short), hx(c.o.longDate), hx(c.o.longTime))
+	}
 	return fmt.Sprintf("case %s %s %s %s", b01(c.cellNumeric), b01(c.d1904), hx(c.value), hx(c.code))
 }
 
@@ -241,7 +270,29 @@ func c10build(c c10case) c10built {
 	keys := map[string]bool{"": true}
 	ok := true
 	hasEraTok := false
-	for _, s := range b.secs {
+	var ldSecs, ltSecs []nfp.Section
+	hasLD, hasLT := false, false
+	if c.o != nil {
+		if c.o.culture == 2 || c.o.culture == 3 || c.o.culture == 5 {
+			ok = false // era / Dangi year handlers: not modelled
+			b.why = "culture"
+		}
+		var pp string
+		if c.o.longDate != "" {
+			hasLD = true
+			if ldSecs, pp = c10parse(c.o.longDate); pp != "" {
+				ok = false
+			}
+		}
+		if c.o.longTime != "" {
+			hasLT = true
+			if ltSecs, pp = c10parse(c.o.longTime); pp != "" {
+				ok = false
+			}
+		}
+	}
+	allSecs := append(append(append([]nfp.Section{}, b.secs...), ldSecs...), ltSecs...)
+	for _, s := range allSecs {
 		for _, t := range s.Items {
 			if strings.ToUpper(t.TValue) != c10asciiUpper(t.TValue) {
 				ok = false
@@ -293,26 +344,38 @@ func c10build(c c10case) c10built {
 			hx(l0.Month3), hx(l0.Month4), hx(l0.Month5), hx(l0.WeekdayAbbr), hx(l0.Weekday),
 			hx(l1.Month3), hx(l1.Month4), hx(l1.Month5), hx(l1.WeekdayAbbr), hx(l1.Weekday))
 	}
-	fmt.Fprintf(&sb, " S %d", len(b.secs))
-	for _, s := range b.secs {
-		fmt.Fprintf(&sb, " %s %d", s.Type, len(s.Items))
-		for _, t := range s.Items {
-			if t.TType == "" || strings.ContainsAny(t.TType, " \t") {
-				ok = false
-			}
-			fmt.Fprintf(&sb, " %s %s %d", t.TType, hx(t.TValue), len(t.Parts))
-			for _, p := range t.Parts {
-				lok := false
-				if p.Token.TType == nfp.TokenSubTypeLanguageInfo {
-					lok = rows[strings.ToUpper(c10effLang(p.Token.TValue))].OK
+	writeSecs := func(secs []nfp.Section) {
+		fmt.Fprintf(&sb, " %d", len(secs))
+		for _, s := range secs {
+			fmt.Fprintf(&sb, " %s %d", s.Type, len(s.Items))
+			for _, t := range s.Items {
+				if t.TType == "" || strings.ContainsAny(t.TType, " \t") {
+					ok = false
 				}
-				pt := p.Token.TType
-				if pt == "" {
-					pt = "_"
+				fmt.Fprintf(&sb, " %s %s %d", t.TType, hx(t.TValue), len(t.Parts))
+				for _, p := range t.Parts {
+					lok := false
+					if p.Token.TType == nfp.TokenSubTypeLanguageInfo {
+						lok = rows[strings.ToUpper(c10effLang(p.Token.TValue))].OK
+					}
+					pt := p.Token.TType
+					if pt == "" {
+						pt = "_"
+					}
+					fmt.Fprintf(&sb, " %s %s %s", pt, hx(p.Token.TValue), b01(lok))
 				}
-				fmt.Fprintf(&sb, " %s %s %s", pt, hx(p.Token.TValue), b01(lok))
 			}
 		}
+	}
+	sb.WriteString(" S")
+	writeSecs(b.secs)
+	sb.WriteString(" O " + b01(hasLD))
+	if hasLD {
+		writeSecs(ldSecs)
+	}
+	sb.WriteString(" " + b01(hasLT))
+	if hasLT {
+		writeSecs(ltSecs)
 	}
 	if i := strings.IndexAny(c.value, "eE"); i >= 0 && c10decRe.MatchString(c.value) {
 		if e, err := strconv.Atoi(c.value[i+1:]); err != nil || e > 400 || e < -400 {
@@ -587,7 +650,12 @@ func c10fmt(r *Run, c c10case) (string, bool) {
 	if c.cellNumeric {
 		ct = xl.CellTypeNumber
 	}
-	res := c10guard(func() string { return xl.VerifC10Format(c.value, c.code, c.d1904, ct, nil) })
+	res := c10guard(func() string {
+		if c.api != nil {
+			return c.api()
+		}
+		return xl.VerifC10Format(c.value, c.code, c.d1904, ct, c.o.options())
+	})
 	cls := c10class(c, b.isNum)
 	r.Stat("class:" + cls)
 	r.Stat(fmt.Sprintf("sections:%d", len(b.secs)))
@@ -619,7 +687,7 @@ func c10fmt(r *Run, c c10case) (string, bool) {
 		if cf.Selected && numeric && xok {
 			xs = "X=" + hx(c10exactFixed(x, cf.Percent, cf.FracLen))
 		}
-		line = r.Op(b.op, out+" "+c10confStr(cf, numeric)+" "+xs+" T=1 A=1")
+		line = r.Op(c.prefix+b.op, out+" "+c10confStr(cf, numeric)+" "+xs+" T=1 A=1"+c.suffix)
 		c10lastLine = line
 		r.Stat("transcript:fmt")
 	} else {
@@ -827,10 +895,19 @@ func atoi(s string) int { n, _ := strconv.Atoi(s); return n }
 // c10dateCase renders a serial under a date template and checks the fields against the instant
 // serial days after 1899-12-30 (1900 system, serial >= 61) or 1904-01-01 (1904 system).
 func c10dateCase(r *Run, value string, d1904 bool, tpl c10dt) {
-	c := c10case{true, d1904, value, tpl.code}
+	c := c10mk(true, d1904, value, tpl.code, nil)
 	out, ok := c10fmt(r, c)
+	if !ok {
+		return
+	}
+	c10checkDate(r, out, value, d1904, tpl, c.replay(), "", c10lastLine)
+}
+
+// c10checkDate: the rendered text `out` of serial `value` under the date template must show the fields
+// of the serial's calendar instant in the given date system. `via` names the path for the signature.
+func c10checkDate(r *Run, out, value string, d1904 bool, tpl c10dt, rep, via string, line int) {
 	x, xok := c10exact(value)
-	if !ok || !xok || x.Sign() < 0 {
+	if !xok || x.Sign() < 0 {
 		return
 	}
 	// total seconds of the serial, floor and nearest
@@ -853,9 +930,8 @@ func c10dateCase(r *Run, value string, d1904 bool, tpl c10dt) {
 		base = time.Date(1904, 1, 1, 0, 0, 0, 0, time.UTC)
 	}
 	m := tpl.re.FindStringSubmatch(out)
-	rep := c.replay()
 	if m == nil {
-		r.Fail("date:shape:"+tpl.kind, fmt.Sprintf("format(%q, %q) = %q does not have the shape of the code", value, tpl.code, out), 0, rep)
+		r.Fail("date:shape:"+tpl.kind+via, fmt.Sprintf("%q under %q%s = %q does not have the shape of the code", value, tpl.code, via, out), line, rep)
 		return
 	}
 	match := false
@@ -906,10 +982,10 @@ func c10dateCase(r *Run, value string, d1904 bool, tpl c10dt) {
 		}
 	}
 	if match {
-		r.Stat("date-ok:" + tpl.kind)
+		r.Stat("date-ok:" + tpl.kind + via)
 		return
 	}
-	sig := "date:fields:" + tpl.kind
+	sig := "date:fields:" + tpl.kind + via
 	switch tpl.kind {
 	case "eh", "em", "es":
 		sig = "date:elapsed"
@@ -919,7 +995,83 @@ func c10dateCase(r *Run, value string, d1904 bool, tpl c10dt) {
 			sig += ":beyond-duration-range"
 		}
 	}
-	r.Fail(sig, fmt.Sprintf("format(%q, %q) date1904=%v = %q, the serial's instant gives %s (seconds floored) or %s (nearest second)", value, tpl.code, d1904, out, wants[0], wants[1]), 0, rep)
+	r.Fail(sig, fmt.Sprintf("%q under %q%s date1904=%v = %q, the serial's instant gives %s (seconds floored) or %s (nearest second)", value, tpl.code, via, d1904, out, wants[0], wants[1]), line, rep)
+}
+
+// ---------------------------------------------------------------------------
+// options layer: Date1904 x Long/Short date and time patterns x system-tag formats
+
+var c10sysDateTags = []string{"[$-F800]", "[$-x-sysdate]", "[$-1010000]", "[$-f800]"}
+var c10sysTimeTags = []string{"[$-F400]", "[$-x-systime]"}
+
+// c10optDate: a date template is installed as an Options pattern and reached through a system tag
+// (or a built-in id for the short pattern); the text GetCellValue returns must show the fields of
+// the serial in the workbook's date system. Also emitted as a transcript line (hook + model).
+func c10optDate(r *Run, value string, d1904 bool, ti int, kind string, tagi int) {
+	tpl := c10dtCodes[ti]
+	rep := fmt.Sprintf("optdate %s %s %d %s %d", b01(d1904), hx(value), ti, kind, tagi)
+	o := &c10o{culture: 1}
+	var code string
+	id := 0
+	switch kind {
+	case "longdate":
+		o.longDate = tpl.code
+		code = c10sysDateTags[tagi%len(c10sysDateTags)] + "dddd, mmmm dd, yyyy"
+	case "longtime":
+		o.longTime = tpl.code
+		code = c10sysTimeTags[tagi%len(c10sysTimeTags)] + "h:mm:ss AM/PM"
+	case "short14":
+		o.short = tpl.code
+		id = 14
+	default:
+		return
+	}
+	r.Case(rep, true)
+	r.Stat("optdate:" + kind)
+	// (a) the unexported format with the same options: transcript line + model
+	if id == 0 {
+		out, ok := c10fmt(r, c10mk(true, d1904, value, code, o))
+		if ok {
+			c10checkDate(r, out, value, d1904, tpl, rep, ":options-"+kind+":format", c10lastLine)
+		}
+	}
+	// (b) the public API on a workbook of that date system
+	res := c10guard(func() string {
+		f := xl.NewFile(*o.options())
+		defer f.Close()
+		if d1904 {
+			t := true
+			if err := f.SetWorkbookProps(&xl.WorkbookPropsOptions{Date1904: &t}); err != nil {
+				return "ERR:" + err.Error()
+			}
+		}
+		st := &xl.Style{NumFmt: id}
+		if id == 0 {
+			st = &xl.Style{CustomNumFmt: &code}
+		}
+		sid, err := f.NewStyle(st)
+		if err != nil {
+			return "ERR:" + err.Error()
+		}
+		_ = f.SetCellDefault("Sheet1", "A1", value)
+		_ = f.SetCellStyle("Sheet1", "A1", "A1", sid)
+		got, err := f.GetCellValue("Sheet1", "A1")
+		if err != nil {
+			return "ERR:" + err.Error()
+		}
+		return "ok:" + got
+	})
+	switch {
+	case res.hang || res.panic != "":
+		r.Fail("optdate:panic", fmt.Sprintf("GetCellValue of %q (%s=%q, date1904=%v) panics/hangs: %s", value, kind, tpl.code, d1904, res.panic), 0, rep)
+	case strings.HasPrefix(res.s, "ok:"):
+		if isNum, prec, dec := xl.VerifC10IsNumeric(value); !isNum || prec > 15 || strconv.FormatFloat(dec, 'f', -1, 64) != value {
+			return // the cell reader would normalise the stored text first
+		}
+		c10checkDate(r, strings.TrimPrefix(res.s, "ok:"), value, d1904, tpl, rep, ":options-"+kind+":GetCellValue", 0)
+	default:
+		r.Fail("optdate:error", fmt.Sprintf("GetCellValue of %q (%s=%q): %s", value, kind, tpl.code, res.s), 0, rep)
+	}
 }
 
 // ---------------------------------------------------------------------------
@@ -1249,26 +1401,26 @@ func runC10(r *Run, rng *Rng, replay string) {
 	}
 	// 0. witnesses of known findings and regression anchors (deterministic, every run)
 	for _, c := range []c10case{
-		{true, false, "0", `0.00;-0.00;"zero"`},
-		{true, false, "0", `#,##0.00;(#,##0.00);"-"`},
-		{true, false, "5", `[>=100]0.0;[<100]0.000`},
-		{true, false, "5", `[foo]0.0`},
-		{true, false, "1234567890123.4568", "0.000"},
-		{true, false, "12345678901234.567", "0.00"},
-		{true, false, "1e16", "0.00%%"},
-		{true, false, "5", "[<0]0.0_)"},
-		{true, false, "12.34", "#,##0%"},
-		{true, false, "1234567", "#,##0%"},
-		{true, false, "1234567.891", "#,##0.00"},
-		{true, false, "-1234.5", "#,##0.00;(#,##0.00)"},
-		{true, false, "abc", `0.00;;;"t:"@`},
-		{true, false, "1.005", "0.00"},
-		{true, false, "2.5", "0"},
-		{true, false, "0.5", "0%"},
-		{true, false, "123456", "0.00E+00"},
-		{true, false, "123456789012345", "General"},
-		{true, true, "43831.75", "yyyy-mm-dd hh:mm:ss"},
-		{true, false, "0.4999999", "AM/PM h:mm:ss"},
+		c10mk(true, false, "0", `0.00;-0.00;"zero"`, nil),
+		c10mk(true, false, "0", `#,##0.00;(#,##0.00);"-"`, nil),
+		c10mk(true, false, "5", `[>=100]0.0;[<100]0.000`, nil),
+		c10mk(true, false, "5", `[foo]0.0`, nil),
+		c10mk(true, false, "1234567890123.4568", "0.000", nil),
+		c10mk(true, false, "12345678901234.567", "0.00", nil),
+		c10mk(true, false, "1e16", "0.00%%", nil),
+		c10mk(true, false, "5", "[<0]0.0_)", nil),
+		c10mk(true, false, "12.34", "#,##0%", nil),
+		c10mk(true, false, "1234567", "#,##0%", nil),
+		c10mk(true, false, "1234567.891", "#,##0.00", nil),
+		c10mk(true, false, "-1234.5", "#,##0.00;(#,##0.00)", nil),
+		c10mk(true, false, "abc", `0.00;;;"t:"@`, nil),
+		c10mk(true, false, "1.005", "0.00", nil),
+		c10mk(true, false, "2.5", "0", nil),
+		c10mk(true, false, "0.5", "0%", nil),
+		c10mk(true, false, "123456", "0.00E+00", nil),
+		c10mk(true, false, "123456789012345", "General", nil),
+		c10mk(true, true, "43831.75", "yyyy-mm-dd hh:mm:ss", nil),
+		c10mk(true, false, "0.4999999", "AM/PM h:mm:ss", nil),
 	} {
 		c10fmt(r, c)
 	}
@@ -1295,7 +1447,7 @@ func runC10(r *Run, rng *Rng, replay string) {
 		"#,##0.00;[Red](#,##0.00)", `0.0;-0.0;"zero";"t:"@`, "yyyy-mm-dd hh:mm:ss", "[h]:mm:ss", "h:mm AM/PM", "#,##0%", "0.0##", "#.#", "00000", "[$-409]mmmm d, yyyy"}
 	for _, v := range c10values {
 		for _, code := range grid {
-			c10fmt(r, c10case{true, false, v, code})
+			c10fmt(r, c10mk(true, false, v, code, nil))
 		}
 	}
 	// 3. random structured cases
@@ -1345,7 +1497,7 @@ func runC10(r *Run, rng *Rng, replay string) {
 		if rng.Chance(15) {
 			code = "0." + strings.Repeat("0", rng.Range(1, 20)) + "E+00"
 		}
-		c10fmt(r, c10case{true, false, c10randValue(rng), code})
+		c10fmt(r, c10mk(true, false, c10randValue(rng), code, nil))
 	}
 	// 5. sign twins
 	for i := 0; i < 150*scale; i++ {
@@ -1381,6 +1533,50 @@ func runC10(r *Run, rng *Rng, replay string) {
 			frac = fmt.Sprintf("%06d", rng.Intn(1000000))
 		}
 		c10dateCase(r, fmt.Sprintf("%d.%s", day, frac), rng.Chance(30), c10dtCodes[rng.Intn(len(c10dtCodes))])
+	}
+	// 6b. options layer: both date systems x long-date / long-time / short patterns x system tags
+	c10optDate(r, "43543.50320601852", true, 0, "longdate", 0)
+	c10optDate(r, "43543.50320601852", true, 0, "longdate", 1)
+	c10optDate(r, "45000.75", true, 0, "longtime", 0)
+	c10optDate(r, "45000.75", true, 0, "short14", 0)
+	for i := 0; i < 120*scale; i++ {
+		day := rng.Pick2([]int{61, 62, 366, 1462, 36526, 43831, 45000, 73050, 100000, rng.Range(61, 2900000)})
+		v := fmt.Sprintf("%d.%s", day, rng.Pick([]string{"0", "5", "25", "75", "125", "50320601852", fmt.Sprintf("%05d", rng.Intn(100000))}))
+		if f, err := strconv.ParseFloat(v, 64); err == nil {
+			v = strconv.FormatFloat(f, 'f', -1, 64)
+		}
+		ti := rng.Pick2([]int{0, 1, 3, 4, 5, 9, 10})
+		kind := rng.Pick([]string{"longdate", "longdate", "longtime", "short14"})
+		c10optDate(r, v, rng.Bool(), ti, kind, rng.Intn(4))
+	}
+	// options on arbitrary codes (transcript): patterns x tags x cultures without an era calendar
+	for i := 0; i < 150*scale; i++ {
+		o := &c10o{culture: rng.Pick2([]int{0, 1, 4}), short: rng.Pick([]string{"", "yyyy/m/d"}),
+			longDate: rng.Pick([]string{"", "dddd, mmmm dd, yyyy", "yyyy-mm-dd", "[$-F800]yyyy", "[$-409]d mmmm yyyy"}),
+			longTime: rng.Pick([]string{"", "h:mm:ss AM/PM", "hh:mm", "[$-F400]h:mm"})}
+		code := rng.Pick(c10locales) + rng.Pick([]string{"dddd, mmmm dd, yyyy", "h:mm:ss AM/PM", "yyyy-mm-dd hh:mm", "0.00", "#,##0", "d/m/yy \"x\""})
+		if rng.Chance(25) {
+			code = c10dateCode(rng)
+		}
+		c10fmt(r, c10mk(true, rng.Chance(40), rng.Pick([]string{"43831.75", "0.5", "1", "45000.25", "-1", "abc", "61.5", "1462"}), code, o))
+	}
+	// 6c. glue: id -> code for every id 0..90 and a few beyond, every culture, with and without patterns
+	for _, pat := range [][2]string{{"", ""}, {"yyyy/m/d", "h:mm:ss AM/PM"}, {"d.m.yy", ""}, {"", "hh:mm"}} {
+		for cu := 0; cu <= 6; cu++ {
+			for id := 0; id <= 90; id++ {
+				c10bcode(r, cu, pat[0], pat[1], id)
+			}
+			for _, id := range []int{163, 164, 200, 634, 635, 1000} {
+				c10bcode(r, cu, pat[0], pat[1], id)
+			}
+		}
+	}
+	for i := 0; i < 250*scale; i++ {
+		id := rng.Pick2([]int{0, 1, 2, 3, 4, 9, 10, 11, 14, 14, 15, 16, 17, 18, 19, 20, 21, 22, 22, 37, 38, 39, 40, 41, 43, 45, 46, 47, 48, 49, rng.Range(27, 36), rng.Range(50, 62), rng.Range(67, 81), rng.Range(5, 90)})
+		o := &c10o{culture: rng.Pick2([]int{0, 1, 1, 4, 4}), short: rng.Pick([]string{"", "", "yyyy/m/d", "d.m.yy"}), longTime: rng.Pick([]string{"", "", "h:mm:ss AM/PM"}),
+			longDate: rng.Pick([]string{"", "", "dddd, mmmm dd, yyyy"})}
+		v := rng.Pick([]string{"43831.75", "0.5", "1234.5678", "-1234.5678", "0", "abc", "45000.25", "1462", "61.5", "0.256", "-0.5"})
+		c10glue(r, rng.Chance(30), !rng.Chance(8), id, o, v)
 	}
 	// 7. locales: every language id / code through AM/PM, month and weekday tokens
 	ids, codes := xl.VerifC10LanguageCodes()
@@ -1428,13 +1624,21 @@ func c10replay(r *Run, path string) {
 		}
 		switch {
 		case w[0] == "case" && len(w) == 5:
-			c10fmt(r, c10case{w[1] == "1", w[2] == "1", unhx(w[3]), unhx(w[4])})
+			c10fmt(r, c10mk(w[1] == "1", w[2] == "1", unhx(w[3]), unhx(w[4]), nil))
 			// date templates carry their own oracle
 			for _, t := range c10dtCodes {
 				if t.code == unhx(w[4]) {
 					c10dateCase(r, unhx(w[3]), w[2] == "1", t)
 				}
 			}
+		case w[0] == "caseo" && len(w) == 9:
+			c10fmt(r, c10mk(w[1] == "1", w[2] == "1", unhx(w[3]), unhx(w[4]), &c10o{atoi(w[5]), unhx(w[6]), unhx(w[7]), unhx(w[8])}))
+		case w[0] == "optdate" && len(w) == 6:
+			c10optDate(r, unhx(w[2]), w[1] == "1", atoi(w[3]), w[4], atoi(w[5]))
+		case w[0] == "glue" && len(w) == 9:
+			c10glue(r, w[1] == "1", w[2] == "1", atoi(w[3]), &c10o{atoi(w[4]), unhx(w[5]), unhx(w[6]), unhx(w[7])}, unhx(w[8]))
+		case w[0] == "bcode" && len(w) == 5:
+			c10bcode(r, atoi(w[1]), unhx(w[2]), unhx(w[3]), atoi(w[4]))
 		case w[0] == "comma" && len(w) == 2:
 			c10comma(r, unhx(w[1]))
 		case w[0] == "twin" && len(w) == 4:
@@ -1594,7 +1798,7 @@ func c10histories(r *Run, hs []c10hist) {
 		r.Stat("history")
 		// (a) through the hook, one call after the other in this process (each call is also a transcript line)
 		for j, v := range h.vals {
-			got, ok := c10fmt(r, c10case{true, false, v, h.code})
+			got, ok := c10fmt(r, c10mk(true, false, v, h.code, nil))
 			line := c10lastLine
 			want := solo[j][i]
 			if !ok || want == "" {
@@ -1659,4 +1863,104 @@ func c10showSolo(s string) string {
 		return fmt.Sprintf("%q", unhx(w[1]))
 	}
 	return s
+}
+
+// ---------------------------------------------------------------------------
+// glue: cell style -> number format id -> code -> format
+
+func c10bcode(r *Run, cu int, short, lt string, id int) {
+	var code string
+	var ok bool
+	res := c10guard(func() string {
+		f := xl.NewFile(xl.Options{CultureInfo: xl.CultureName(cu), ShortDatePattern: short, LongTimePattern: lt})
+		defer f.Close()
+		code, ok = f.VerifC10BuiltInCode(id)
+		return ""
+	})
+	op := fmt.Sprintf("bcode %d %s %s %d", cu, hx(short), hx(lt), id)
+	out := "none"
+	if res.panic != "" || res.hang {
+		out = "PANIC"
+		r.Fail("glue:panic", fmt.Sprintf("getBuiltInNumFmtCode(%d) culture %d panics: %s", id, cu, res.panic), 0, op)
+	} else if ok {
+		out = "ok " + hx(code)
+	}
+	r.Op(op, out)
+	r.Case(op, ok)
+	r.Stat("transcript:bcode")
+}
+
+// c10glue: NewStyle{NumFmt: id} (or no style) on a File with options; the text GetCellValue returns
+// must be format(code) for the code formattedValue resolves to, raw when there is none.
+func c10glue(r *Run, d1904, styled bool, id int, o *c10o, value string) {
+	rep := fmt.Sprintf("glue %s %s %d %d %s %s %s %s", b01(d1904), b01(styled), id, o.culture, hx(o.short), hx(o.longDate), hx(o.longTime), hx(value))
+	if isNum, prec, dec := xl.VerifC10IsNumeric(value); isNum && (prec > 15 || strconv.FormatFloat(dec, 'f', -1, 64) != value) {
+		return
+	}
+	var code string
+	var has bool
+	pre := c10guard(func() string {
+		f := xl.NewFile(*o.options())
+		defer f.Close()
+		code, has = f.VerifC10BuiltInCode(id)
+		if styled {
+			// NewStyle de-duplicates: an id that adds nothing gives the default style 0 (the raw value is read)
+			if st, err := f.NewStyle(&xl.Style{NumFmt: id}); err != nil || st == 0 {
+				styled = false
+			}
+		}
+		return ""
+	})
+	if pre.panic != "" || pre.hang {
+		return
+	}
+	if has && o.short != "" {
+		switch id {
+		case 14:
+			code = o.short
+		case 22:
+			code = o.short + " hh:mm"
+		}
+	}
+	if !styled {
+		has = false
+	}
+	codeField := "none"
+	if has {
+		codeField = hx(code)
+	} else {
+		code = ""
+	}
+	api := func() string {
+		f := xl.NewFile(*o.options())
+		defer f.Close()
+		if d1904 {
+			t := true
+			if err := f.SetWorkbookProps(&xl.WorkbookPropsOptions{Date1904: &t}); err != nil {
+				panic(err)
+			}
+		}
+		if err := f.SetCellDefault("Sheet1", "A1", value); err != nil {
+			panic(err)
+		}
+		if styled {
+			st, err := f.NewStyle(&xl.Style{NumFmt: id})
+			if err != nil {
+				panic(err)
+			}
+			if err := f.SetCellStyle("Sheet1", "A1", "A1", st); err != nil {
+				panic(err)
+			}
+		}
+		got, err := f.GetCellValue("Sheet1", "A1")
+		if err != nil {
+			panic(err)
+		}
+		return got
+	}
+	c := c10case{cellNumeric: true, d1904: d1904, value: value, code: code, o: o, api: api,
+		prefix: fmt.Sprintf("glue %s %d %d %s %s %s ", b01(styled), id, o.culture, hx(o.short), hx(o.longTime), codeField),
+		suffix: " R=1", rep: rep}
+	r.Stat("glue")
+	c10fmt(r, c)
 }
